@@ -1,6 +1,7 @@
 import RallyModel.RaceCtl
 import RallyModel.Race
 import RallyProofs.Race
+import RallyProofs.RaceStuck
 import RallyGen.FailureRelay
 /-!
 # C09 — any failure or cancellation ends the race as failed, never as success
@@ -11,7 +12,10 @@ Three layers, each for all inputs of its kind:
   `BenchmarkFailure` travels along the `receiveMsg_BenchmarkFailure` handlers to the benchmark actor and from there
   to the start sender, in at most 4 hops — over a table regenerated from the source on every run;
 * executor failures are polled: in every reachable state of the protocol model of C01 a worker with an executor
-  has exactly one wake-up pending (so the failed future is inspected at the next wake-up).
+  has exactly one wake-up pending (so the failed future is inspected at the next wake-up);
+* a failed executor blocks completion: a worker whose executor never finishes stays inside its column, so for EVERY
+  continuation of the race (any interleaving of everybody else's progress and of all message deliveries) the barrier
+  never opens again — no further TaskFinished, no BenchmarkComplete, hence (first layer) no stored results.
 -/
 namespace C09
 open RaceCtl
@@ -184,11 +188,55 @@ theorem executor_failure_is_polled (cfg : Race.Cfg) (hwf : cfg.WF) (s : Race.Sta
   simp only [hp] at hwi
   exact hwi.2.2.2.2.2.2.2.1
 
+/-- **failed_executor_blocks_completion** — take any reachable state of the protocol model of C01 in which worker `w`
+    is inside a column (it has an executor), and let that executor never finish (its future failed: no task of it
+    returns any more, the future never becomes done-without-exception, and the wake-up that finds the exception only
+    reports it).  Then for EVERY continuation — any interleaving of all other workers' progress and of every message
+    delivery, including deliveries to `w` — `w` stays in that column, the driver's step counter does not move, race
+    control is sent nothing more, and in particular never `BenchmarkComplete`. -/
+theorem failed_executor_blocks_completion (cfg : Race.Cfg) (hwf : cfg.WF) (s : Race.State) (hr : Race.Reach cfg s)
+    (w e c : Nat) (hw : w < cfg.W) (hp : (s.ws w).pos = .inCol e c)
+    (evs : List Race.Event) (hstuck : ∀ ev ∈ evs, ev.ownOf w = false) (s' : Race.State)
+    (hrun : Race.runEvs cfg s evs = some s') :
+    (s'.ws w).pos = .inCol e c ∧ s'.d.stepP1 = s.d.stepP1 ∧ s'.d2r = s.d2r ∧ Race.MsgDR.benchComplete ∉ s'.d2r := by
+  have hp' := Race.runEvs_keeps_pos evs s s' hrun hstuck hp
+  have hr' := Race.reach_runEvs evs s s' hr hrun
+  have hi := Race.reach_inv hwf hr
+  have hi' := Race.reach_inv hwf hr'
+  have h1 := hi.winv w hw
+  have h2 := hi'.winv w hw
+  unfold Race.WInv at h1 h2
+  simp only [hp] at h1
+  simp only [hp'] at h2
+  have hD : s'.d.stepP1 = s.d.stepP1 := by omega
+  have hne : ¬ s'.d.stepP1 = cfg.S + 1 := by omega
+  refine ⟨hp', hD, ?_, ?_⟩
+  · rw [hi'.d2r_eq, hi.d2r_eq, hD]
+  · rw [hi'.d2r_eq]
+    simp [hne]
+
+/-- … and therefore, in race control's model, nothing that is sent from then on can make it store results: results
+    are stored only on a `BenchmarkComplete` (and only while neither flag is set). -/
+theorem results_need_benchmark_complete (ms : List Msg) (h : Msg.benchComplete ∉ ms) : (run {} ms).resultsStored = false := by
+  cases hrs : (run {} ms).resultsStored with
+  | false => rfl
+  | true =>
+    obtain ⟨pre, post, heq, _, _⟩ := results_only_without_flags ms hrs
+    exact absurd (by rw [heq]; simp) h
+
 /-! ### non-vacuity (tests, labelled as tests) -/
 
 example : outcome (run {} [.engineStarted, .preparationComplete, .taskFinished, .failure, .benchComplete, .engineStopped]) = .failed ∧
     (run {} [.engineStarted, .preparationComplete, .taskFinished, .failure, .benchComplete, .engineStopped]).resultsStored = false := by decide
 example : outcome (run {} [.engineStarted, .preparationComplete, .taskFinished, .benchComplete, .engineStopped]) = .success ∧
     (run {} [.engineStarted, .preparationComplete, .taskFinished, .benchComplete, .engineStopped]).resultsStored = true := by decide
+
+/-- a reachable state with a worker inside a column: one worker, one element with one infinite task -/
+def exStuckCfg : Race.Cfg :=
+  { W := 1, S := 1, elems := fun w e => if w = 0 ∧ e = 0 then [[⟨0, 0, false, false, false⟩]] else [],
+    joins := fun _ => ⟨[], []⟩, workerOf := fun _ => 0, clientsOf := fun w => if w = 0 then [0] else [] }
+
+example : ((Race.runEvs exStuckCfg (Race.init exStuckCfg) [.deliverDW 0, .deliverWD 0, .deliverDW 0, .wakeW 0]).map
+    fun s => ((s.ws 0).pos, s.d2r)) = some (.inCol 0 0, [.taskFinished]) := by decide
 
 end C09
